@@ -7,8 +7,8 @@
    not yet covered by a theorem are decided by the implementation <-> specification <->
    hardware differential run only (listed as unproved_forms in the evidence). *)
 From Coq Require Import ZArith Bool List.
-From AxV Require Import Bits Outcome Codes Iced State Rt Mem Trace Exec ExecP FrameTac FrameP ISA CodeSem IsaP ControlFlow TraceP CfP CfStepP.
-From AxG Require Import Flags Regs Operand Helpers Dispatch Frame.
+From AxV Require Import Bits Outcome Codes Iced State Rt Mem Trace Exec ExecP FrameTac FrameP ISA CodeSem IsaP ControlFlow TraceP CfP CfStepP Examples.
+From AxG Require Import Flags Regs Operand Helpers Dispatch Frame I_jmp.
 Local Open Scope Z_scope.
 
 Print Assumptions cond_matches_sdm.
@@ -35,3 +35,19 @@ Theorem C03_relative_branches : forall c i sm s,
 Proof. exact rel_branch_refines_isa. Qed.
 
 Print Assumptions C03_relative_branches.
+
+(* the full statement - "a branch does what the CPU does" - is false of the faithful model on
+   non-canonical targets; this is known finding KF-C03-noncanonical-target, stated with its
+   witness: JMP rel32 to 2^47 faults on the CPU (#GP) and completes in the emulator, in every build
+   configuration.  The same case is replayed against the implementation on every run
+   (corpus/kf_golden.json). *)
+Theorem C03_noncanonical_target_refuted :
+  let s := at_next jmp_noncanonical in
+  isa_exec SJmpRel jmp_noncanonical s = IFault FBranch /\
+  forall c, match instr_jmp_rel32_64 c jmp_noncanonical s with
+            | (Ok tt, s') => regs s' RIP = 2 ^ 47
+            | _ => False
+            end.
+Proof. exact jmp_noncanonical_target_refuted. Qed.
+
+Print Assumptions C03_noncanonical_target_refuted.
